@@ -15,7 +15,7 @@
 (*   ordered  : ordered rows are a sorted permutation of the unordered run *)
 (*   sliced   : limited rows are the slice of the unlimited run            *)
 (***************************************************************************)
-EXTENDS KvExec, Json
+EXTENDS KvExec, KvPlanner, Json
 
 Trace == ndJsonDeserialize("stmt.ndjson")
 VARIABLE i
@@ -92,7 +92,10 @@ Next == /\ i <= Len(Trace)
         /\ i' = i + 1
         /\ LET c == [Trace[i] EXCEPT !.checks = Range(Trace[i].checks)]
                v == Verdict(c)
-           IN IF v = "ok" THEN TRUE
-              ELSE IF v = "unmodelled" THEN PrintT(<<"UNMODELLED", c.id>>)
-              ELSE PrintT(<<"REJECT", c.id, v>>)
+           IN /\ IF v = "ok" THEN TRUE
+                 ELSE IF v = "unmodelled" THEN PrintT(<<"UNMODELLED", c.id>>)
+                 ELSE PrintT(<<"REJECT", c.id, v>>)
+              \* the plan the engine built against the planner design (KvPlanner): a difference is design drift, not a verdict
+              /\ IF c.chain = <<>> \/ c.chain = ChainOf(c.stmt) THEN TRUE
+                 ELSE PrintT(<<"DRIFT", c.id, c.chain, ChainOf(c.stmt)>>)
 =============================================================================
